@@ -85,7 +85,10 @@ def v2run(test, **kw):
 
 
 def rootrun(pkg, pkgname, harness, test, **kw):
-    d = dict(mod="root", pkg=pkg, pkgname=pkgname, files=[harness], run=f"^{test}$", timeout=900, timeout_thorough=7000)
+    files = [harness]
+    if harness in ("overlay/stringclassifier/zz_verif_test.go",):
+        files.append("locks_test.go.tmpl")
+    d = dict(mod="root", pkg=pkg, pkgname=pkgname, files=files, run=f"^{test}$", timeout=900, timeout_thorough=7000)
     d.update(kw)
     return d
 
@@ -140,7 +143,7 @@ P("C01", ["LC.Props.C01", "LC.Props.C01Range"], [MATCH, v2run("TestVerifC01")],
   ["DiffSpec.equalInputs (go-diff returns one Equal segment for identical texts)", FLOAT,
    "NoDominator: no other corpus document approximately spans several planted copies (the oracle would show it)"], regen=ALLGEN)
 
-P("C02", ["LC.Props.C02"], [MATCH],
+P("C02", ["LC.Props.C02", "LC.Props.C02Words"], [MATCH],
   "real Match on exact / edited (word deletions, substitutions, insertions at 2-30%) / truncated / multi-license inputs, "
   "scenario files and malformed text over the full embedded corpus; oracle: independent two-row DP Levenshtein over the "
   "white-box token ids, Confidence <= 1 - L/|K|, lines = lines of first/last word. distinct = distinct input bytes; "
@@ -163,20 +166,24 @@ P("C03", ["LC.Props.C03Lines", "LC.Props.C03WF"], [TOK, MATCH],
   ["thresholds in (0,1]; corpus keys without path separator", FLOAT + " (NumLaws: > on confidences is a strict total order, no NaN)"],
   regen=ALLGEN)
 
-P("C04", ["LC.Props.C04"], [MATCH, v2run("TestVerifC04", xproc=True)],
+P("C04", ["LC.Props.C04", "LC.Props.C09Footprint"], [MATCH, v2run("TestVerifC04", xproc=True)],
   "call histories on the real classifier: each input matched repeatedly with other Match/MatchFrom/Normalize calls in "
   "between, against a separately built instance with reversed insertion order, a superset corpus, tracing enabled; caller "
   "slices compared before/after; the same inputs matched in a second process (different map seed) and compared. Always "
-  "includes the corpus documents that are textually identical to another one. distinct = input; non-trivial = has matches",
+  "includes the corpus documents that are textually identical to another one; a small user corpus with probes whose score "
+  "depends on a word being out of vocabulary, re-matched after Match/MatchFrom/Normalize of texts carrying that word in every "
+  "tokenizer position (hist_dict*). distinct = input; non-trivial = has matches",
   "sort_order_irrelevant / sorted_perm_unique: a sort under a strict total order has one result per multiset; matchLess_total: "
   "the (repaired) comparator is such an order; match_order_independent: the model's result is the same for every iteration "
   "order of the corpus map; match_equivariant: renaming the token ids by any injection (a differently ordered or separately built "
   "dictionary) changes nothing, given that the diff library commutes with the renaming; dict_roundtrip: ids and words stay in "
   "bijection. The comparator field orders the model mirrors are "
-  "regenerated from the AST and compared (matchLess_fields_current, mrLess_fields_current).",
+  "regenerated from the AST and compared (matchLess_fields_current, mrLess_fields_current). That Match leaves the dictionary "
+  "alone is tied to the source by the regenerated footprint (footprint_current, match_does_not_update_dict: every updateDict "
+  "argument and guard on the way from match to dictionary.add).",
   [FLOAT, "key uniqueness of joined ranges (hypothesis hk of mr_sort_order_irrelevant)",
    "DiffSpec.crossOnly: go-diff depends on its inputs only through their equality pattern (hypothesis hd of match_equivariant)",
-   "tracing and slice aliasing are run-time facts covered by the harness only"], regen=ALLGEN)
+   "tracing and slice aliasing are run-time facts covered by the harness only"], regen=ALLGEN + ["v2footprint"])
 
 P("C05", ["LC.Props.C05"], [TOK, v2run("TestVerifC05")],
   "metamorphic: real Match before/after each presentation transform (upper/random ASCII case, indentation, trailing blanks, "
@@ -252,12 +259,15 @@ P("C11", ["LC.Props.C11", "LC.Props.C06"], [TOK, v2run("TestVerifC11")],
   "findings and is checked by the oracle.",
   ["known findings C11/* are reported as KNOWN-FINDING"], regen=ALLGEN)
 
-P("C12", ["LC.Props.C12"], [PATH, v2run("TestVerifC12")],
+P("C12", ["LC.Props.C12"], [PATH, v2run("TestVerifC12"),
+     dict(mod="v2", pkg="assets", pkgname="assets", files=["overlay/assets/zz_verif_test.go"], run="^TestVerifC12Assets$", timeout=900, timeout_thorough=3000)],
   "real LoadLicenses on generated directory trees (files at depth 1-5, suffixes txt/md/TXT/none, empty files, 1-2 letter "
   "categories, corpus directory named corpus or corpus.txt) under eight spellings of the directory (plain, trailing separator, "
   "./relative, doubled separator, .., and after chdir: '.', './', '../name'); corpus keys and Match results "
   "compared with an AddContent-built classifier for trees whose .txt files sit at depth 3; LoadLicenses(assets) vs the "
-  "AddContent-built default corpus; stages clean/rel/loadkey compare filepath.Clean/Rel and the key derivation with the model. "
+  "AddContent-built default corpus; the real assets.DefaultClassifier(), called four times with the returned classifier modified "
+  "in between (AddContent of a new and of an existing name, SetTraceConfiguration, Normalize), compared on every call with "
+  "LoadLicenses('.') in the assets directory; stages clean/rel/loadkey compare filepath.Clean/Rel and the key derivation with the model. "
   "distinct = (tree, spelling); non-trivial = all",
   "rel_walk / load_key_exact / load_key_shallow / load_key_total prove, for EVERY non-empty spelling of the directory and every "
   "walked file with ordinary names, that the (repaired) key derivation yields exactly (category, name, variant) at depth 3, "
@@ -355,16 +365,21 @@ P("C18", ["LC.Props.C18"],
   trusted=["Lean model LC/Model/Lexer tied to commentparser.Parse by stage `lex`; specification LC/Spec/LexSpec; regenerated "
            "language facts LC/Gen/LangTable"], regen=["langtable"])
 
-P("C19", ["LC.Props.C19"],
-  [dict(mod="v2", pkg="tools/identify_license/backend", pkgname="backend", files=["overlay/backend/zz_verif_test.go"],
-        run="^TestVerifC19$", timeout=1800, timeout_thorough=7000, pre=build_cli)],
+P("C19", ["LC.Props.C19", "LC.Props.C19Locks"],
+  [dict(mod="v2", pkg="tools/identify_license/backend", pkgname="backend", files=["overlay/backend/zz_verif_test.go", "locks_test.go.tmpl"],
+        run="^TestVerifC19$", timeout=1800, timeout_thorough=7000, pre=build_cli),
+   dict(mod="v2", pkg="tools/identify_license/backend", pkgname="backend", files=["overlay/backend/zz_verif_test.go", "locks_test.go.tmpl"],
+        run="^TestVerifC19Race$", timeout=1800, timeout_thorough=7000, race=True)],
   "the identify_license binary built from the working tree, run over generated trees (licensed/unlicensed files, nested "
   "directories, CRLF, 70 kB lines, no trailing newline, empty files) x -headers x -tasks {1,2,7,1000} x directory/file "
   "arguments with -json -include_text; stdout lines (as a multiset), exit status and JSON Text compared with in-process "
-  "library results. distinct = (flags, files); non-trivial = at least one match",
+  "library results; the backend's pool in process under the race detector (TestVerifC19Race: 40/400 files with 6-35 matches "
+  "each at -tasks 1/4/64, result multiset compared with the library's). distinct = (flags, files); non-trivial = at least one match",
   "results_schedule_independent (the multiset of result lines does not depend on worker order), header_filter, exit_iff, "
   "readLines_spec / readLines_short; the worker pool's shutdown protocol: the order of a worker's deferred actions is "
   "regenerated from the AST (defer_order_current) and no_send_after_close proves that with this order no execution, for any "
   "number of workers and any interleaving, sends on the closed task channel (old_order_can_panic: the previous order does). "
+  "The shared result list: the lock skeleton of every backend function touching `results`/`mu` is regenerated (LC.Gen.CliLocks) and "
+  "the worker-side ones are accepted by the RW checker (results_skeletons_accepted, results_append_exclusive), so by rw_no_race no append is lost for any -tasks. "
   "Process, file system and JSON encoding are outside the model.",
   ["OS process/exit codes, filepath.Walk, encoding/json"], trusted=V1_TB, regen=["cliprotocol"])
